@@ -19,6 +19,7 @@ from ..astutil import call_name, calls, dotted, names_in, param_names, stmts, wa
 from ..cfg import CFG
 from ..core import AnalysisError, Mutant
 from ..exprnorm import same_expr
+from ..exprnorm import has_code
 
 EXPLANATION = (
     "Classification of every pointer-array subscript in kmertable.pyx (lowered, with C types): loop "
@@ -154,7 +155,7 @@ def run(ctx):
             for st in ast.walk(f):
                 if isinstance(st, ast.For) and not (isinstance(st.iter, ast.Call) and call_name(st.iter) == "range"):
                     iter_targets |= {t.id for t in ast.walk(st.target) if isinstance(t, ast.Name)}
-            unchecked = any("boundscheck(False)" in ast.unparse(d) for d in f.decorator_list)
+            unchecked = any(has_code(d, "boundscheck(False)") for d in f.decorator_list)
             params = param_names(f)[1:] if param_names(f) and param_names(f)[0] == "self" else param_names(f)
             local_src = {}
             for st in stmts(f):
